@@ -4,6 +4,7 @@
 From Coq Require Import List NArith ZArith Bool String Lia.
 From Verif Require Import Lib.Bytes Sni.Wire Sni.WireProofs Gen.WireSchema.
 From Verif Require Export Sni.WireGenDefs.
+From Verif Require Import Sni.WireFrozen.
 Import ListNotations.
 Local Open Scope N_scope.
 
@@ -111,6 +112,24 @@ Definition deployed_pairing_frozenb : bool :=
     end) deployed_pairing.
 
 Lemma gen_deployed_pairing_frozen : deployed_pairing_frozenb = true.
+Proof. vm_compute. reflexivity. Qed.
+
+(** ** The primitive layer is the code the model was written against. *)
+
+Definition src_eqb (a b : list (string * string)) : bool :=
+  list_eqb (fun x y => String.eqb (fst x) (fst y) && String.eqb (snd x) (snd y)) a b.
+
+(** Names of the functions whose text differs (for the report). *)
+Fixpoint src_diff (a b : list (string * string)) : list string :=
+  match a, b with
+  | (n, x) :: a', (_, y) :: b' =>
+      if String.eqb x y then src_diff a' b' else n :: src_diff a' b'
+  | [], [] => []
+  | (n, _) :: _, [] => [n]
+  | [], (n, _) :: _ => [n]
+  end.
+
+Lemma gen_codec_src_frozen : src_diff gen_codec_src frozen_codec_src = [].
 Proof. vm_compute. reflexivity. Qed.
 
 (** ** Size constants *)
